@@ -146,3 +146,80 @@ func init() {
 		return []Val{r}
 	}
 }
+
+// ---- time: a ghost monotone clock "now" (nanoseconds); every reading may advance it ----
+
+func (x *Exec) clockRead(st *State) string {
+	cur, ok := st.ghost["now"]
+	n := x.u.fresh("now", "Int")
+	if ok {
+		x.u.fact("(>= " + n + " " + cur.T + ")")
+	} else {
+		x.u.fact("(>= " + n + " " + x.now0() + ")")
+	}
+	st.ghost["now"] = Val{T: n, S: "Int"}
+	return n
+}
+
+func (x *Exec) now0() string {
+	if !x.u.sortSeen["now!0"] {
+		x.u.sortSeen["now!0"] = true
+		x.u.decls = append(x.u.decls, "(declare-const now!0 Int)")
+		x.u.fact("(>= now!0 0)")
+	}
+	return "now!0"
+}
+
+func init() {
+	H := libHandlers
+	nowH := func(fr *Frame, st *State, c *ast.CallExpr, fn *types.Func) []Val {
+		x := fr.x
+		x.used("time.Now / clock.Now: ghost monotone clock; each reading is >= the previous one")
+		x.u.declSort("Time")
+		if se, ok := ast.Unparen(c.Fun).(*ast.SelectorExpr); ok {
+			if fr.info.Selections[se] != nil {
+				fr.expr(st, se.X)
+			}
+		}
+		n := x.clockRead(st)
+		t := x.havocVal("t", resT(fn, 0))
+		x.u.fact("(= (time.ns " + t.T + ") " + n + ")")
+		return []Val{t}
+	}
+	H["time.Now"] = nowH
+	H["(github.com/benbjohnson/clock.Clock).Now"] = nowH
+	H["(*github.com/benbjohnson/clock.Mock).Now"] = nowH
+	H["time.Since"] = func(fr *Frame, st *State, c *ast.CallExpr, fn *types.Func) []Val {
+		x := fr.x
+		x.used("time.Since(t) = now - t on the ghost clock (saturation ignored)")
+		t := fr.expr(st, c.Args[0])
+		n := x.clockRead(st)
+		return []Val{x.bind(Val{T: "(- " + n + " (time.ns " + t.T + "))", S: "Int", Ty: resT(fn, 0)}, "since")}
+	}
+	H["(time.Time).Sub"] = func(fr *Frame, st *State, c *ast.CallExpr, fn *types.Func) []Val {
+		x := fr.x
+		x.used("time.Time.Sub: difference in nanoseconds (saturation ignored)")
+		a := fr.recvOf(st, c)
+		b := fr.expr(st, c.Args[0])
+		return []Val{x.bind(Val{T: "(- (time.ns " + a.T + ") (time.ns " + b.T + "))", S: "Int", Ty: resT(fn, 0)}, "dur")}
+	}
+	for name, div := range map[string]string{"Hours": "3600000000000.0", "Minutes": "60000000000.0", "Seconds": "1000000000.0"} {
+		div := div
+		H["(time.Duration)."+name] = func(fr *Frame, st *State, c *ast.CallExpr, fn *types.Func) []Val {
+			x := fr.x
+			x.used("time.Duration.Hours/Minutes/Seconds: exact real division (float rounding ignored)")
+			d := fr.recvOf(st, c)
+			return []Val{x.bind(Val{T: "(/ (to_real " + d.T + ") " + div + ")", S: "Real", Ty: resT(fn, 0)}, "durf")}
+		}
+	}
+	tick := func(fr *Frame, st *State, c *ast.CallExpr, fn *types.Func) []Val {
+		x := fr.x
+		for _, a := range c.Args {
+			fr.expr(st, a)
+		}
+		r := x.alloc(st, "ticker")
+		return []Val{{T: r, S: "Int", Ty: resT(fn, 0)}}
+	}
+	H["(github.com/benbjohnson/clock.Clock).Ticker"] = tick
+	H["time.NewTicker"] = tick
+}
